@@ -1,3 +1,7 @@
+import Driver.C19
+import Driver.C20
+import Driver.C10
+import Driver.C16
 import Driver.C02
 import Driver.C14
 import Driver.C13
@@ -15,4 +19,8 @@ def main (args : List String) : IO UInt32 := do
   | ["C13"] => Driver.C13.main; return 0
   | ["C14"] => Driver.C14.main; return 0
   | ["C02"] => Driver.C02.main; return 0
+  | ["C16"] => Driver.C16.main; return 0
+  | ["C10"] => Driver.C10.main; return 0
+  | ["C20"] => Driver.C20.main; return 0
+  | ["C19"] => Driver.C19.main; return 0
   | _ => IO.eprintln "usage: stirdriver <C01..C20>"; return 2
